@@ -172,8 +172,15 @@ def loop_with_source(body, pred):
         t = body.term(h)
         if t and t["k"] == "call" and callee_path(t) in ("std::iter::Iterator::next",):
             e = body.rec_call(t, h)
-            if e[0] == "next" and pred(e[1]):
-                out.append((h, blocks, latches, e[1]))
+            if e[0] != "next":
+                continue
+            src = e[1]
+            rv = mir.range_over(src)
+            if rv is not None:
+                # `for i in 0..v.len()` ranges over the positions of v: the same loop as `for (i, x) in v.iter().enumerate()` (K3 reads `i` and `v[i]` accordingly)
+                src = ("call", "std::iter::Iterator::enumerate", (rv,))
+            if pred(src):
+                out.append((h, blocks, latches, src))
     return out
 
 
@@ -1177,3 +1184,54 @@ def raw_root(body, op, depth=0):
     if rv["k"] == "cast":
         return raw_root(body, rv["op"], depth + 1)
     return ("other",)
+
+
+def field_reads(body, owner_nname, field):
+    """[(bb, where)] places of `body` that read <owner>.<field> (as an operand, by reference, or as a call argument); a `ref` that is only
+    used to write through is still listed — callers that care filter with stmt_writes"""
+    out = []
+
+    def hit(pl):
+        return any(p["k"] == "field" and p["n"] == field and norm_name(p.get("owner") or "") == owner_nname for p in pl["p"])
+    for bi, si, s_ in body.iter_stmts():
+        if s_["k"] != "assign" or s_.get("exp"):
+            continue
+        rv = s_["rv"]
+        pls = []
+        if rv["k"] in ("ref", "rawptr", "discr"):
+            pls.append(rv["place"])
+        for op in mir._rvalue_operands(rv):
+            if op["k"] in ("copy", "move"):
+                pls.append(op["place"])
+        if any(hit(pl) for pl in pls):
+            out.append((bi, body.where(bi, si)))
+    for bi, t in body.calls():
+        if t.get("exp"):
+            continue
+        for a in t["args"]:
+            if a["k"] in ("copy", "move") and hit(a["place"]):
+                out.append((bi, body.where(bi)))
+    return out
+
+
+_IW = {"u8": 8, "u16": 16, "u32": 32, "u64": 64, "u128": 128, "usize": 64, "i8": 8, "i16": 16, "i32": 32, "i64": 64, "i128": 128, "isize": 64}
+
+
+def narrowed_inner(e):
+    """(inner, bits, how) when `e` is a value reduced to a narrower integer type without the reduction being an error:
+    `x as uN` with N below x's width (wraps), or `uN::try_from(x).unwrap_or(K)` / `x.try_into().unwrap_or(K)` (saturates); else None.
+    A comparison made on such a value is not a comparison of x."""
+    x = mir.strip(e)
+    if x[0] == "cast" and len(x) >= 4 and x[2] in _IW and x[3] in _IW and _IW[x[2]] > _IW[x[3]] and const_val(x[1]) is None:
+        inner = mir.strip(x[1])
+        if inner[0] == "cast" and len(inner) >= 4 and _IW.get(inner[2], 999) <= _IW[x[3]]:
+            return None                 # widened from the narrow type and narrowed back: nothing is lost
+        return (x[1], _IW[x[3]], "wrapped (as %s)" % x[3])
+    if x[0] == "call" and x[1].split("::")[-1] in ("unwrap_or", "unwrap_or_default", "unwrap_or_else") and x[2]:
+        y = mir.strip(x[2][0])
+        if y[0] == "call" and y[1].split("::")[-1] in ("try_from", "try_into") and y[2]:
+            import re
+            m = re.search(r"TryFrom<(\w+)> for (\w+)", y[1])
+            if m and m.group(1) in _IW and m.group(2) in _IW and _IW[m.group(1)] > _IW[m.group(2)]:
+                return (y[2][0], _IW[m.group(2)], "saturated (%s::try_from(..).unwrap_or(..))" % m.group(2))
+    return None
